@@ -43,7 +43,7 @@ pub fn classify(r: &Result<Multiboot2Header, LoadError>) -> Spec {
     }
 }
 
-// @harness props=C10,C08,C09 tier=quick panic=forbid features=both
+// @harness props=C10,C08,C09,C12 tier=quick panic=forbid features=both
 // @encodes multiboot2_header::Multiboot2Header::load DynSizedStructure::ref_from_ptr Multiboot2BasicHeader::payload_len Header::total_size BytesRef::try_from ref_from_bytes verify_checksum calc_checksum header_magic arch length checksum
 // @bound 64-byte object; magic, checksum and contents symbolic; architecture in {0,4}; declared length symbolic in 0..=64
 // @assume architecture word holds a defined value (0 or 4) — the property's precondition
